@@ -648,6 +648,24 @@ def audible : Val → Except Err Bool
   | .tup _ => .ok true
   | v => gtZero v
 
+/-- after the voice loop: `if event.pitchbend is not None and played: output_device.pitch_bend(pitchbend, channel)` —
+    the bend accompanies a note that was actually played (an event none of whose voices sounds sends nothing at all);
+    `channel` is the loop variable left by the last voice. -/
+def withBend (l : Loop) (pitchbend : Val) : Perf :=
+  match pitchbend with
+  | .a .none => { calls := l.calls }
+  | pb =>
+    if l.calls.isEmpty then { calls := l.calls }
+    else
+      match l.channel with
+      | some ch => { calls := l.calls ++ [.pitchBend pb ch] }
+      | Option.none => { calls := l.calls, err := some .unboundLocalError }   -- unreachable: a played voice bound `channel`
+
+def afterLoop (l : Loop) (pitchbend : Val) : Perf :=
+  match l.err with
+  | some e => { calls := l.calls, err := some e }
+  | Option.none => withBend l pitchbend
+
 def performNote (duration note amplitude gate channel pitchbend : Val) : Perf :=
   match audible amplitude with
   | .error e => { calls := [], err := some e }
@@ -656,16 +674,8 @@ def performNote (duration note amplitude gate channel pitchbend : Val) : Perf :=
     match notesOf note with
     | .error e => { calls := [], err := some e }
     | .ok notes =>
-      let l := voiceLoop duration amplitude gate channel notes 0 { calls := [], channel := Option.none, err := Option.none }
-      match l.err with
-      | some e => { calls := l.calls, err := some e }
-      | Option.none =>
-        match pitchbend with
-        | .a .none => { calls := l.calls }
-        | pb =>
-          match l.channel with
-          | some ch => { calls := l.calls ++ [.pitchBend pb ch] }
-          | Option.none => { calls := l.calls, err := some .unboundLocalError }   -- `channel` was never bound
+      afterLoop (voiceLoop duration amplitude gate channel notes 0 { calls := [], channel := Option.none, err := Option.none })
+        pitchbend
 
 /-- the action branch: the arguments are checked against the callable's signature; any problem is printed
     and swallowed (`except Exception`), the callable is then not called. -/
